@@ -65,6 +65,38 @@ def lex_fault(s):
     return None
 
 
+def exposed_backtick(s):
+    """a backtick outside comments, strings and escaped identifiers: the text is not directive-free after all
+    (the alphabet only puts backticks inside comments and strings, but a preceding backslash or quote can open them up)"""
+    i, n = 0, len(s)
+    while i < n:
+        c = s[i]
+        if s.startswith("//", i):
+            j = s.find("\n", i); i = n if j < 0 else j + 1
+        elif s.startswith("/*", i):
+            j = s.find("*/", i + 2)
+            if j < 0:
+                return False
+            i = j + 2
+        elif c == '"':
+            j = i + 1
+            while j < n and s[j] != '"':
+                j += 2 if s[j] == "\\" else 1
+            if j >= n:
+                return False
+            i = j + 1
+        elif c == "\\":
+            j = i + 1
+            while j < n and s[j] not in " \t\r\n":
+                j += 1
+            i = j
+        elif c == "`":
+            return True
+        else:
+            i += 1
+    return False
+
+
 D6 = re.compile(r'("(?:[^"\\]|\\.)*"|\\[^ \t\r\n]+)(?=[ \t\r\n]|//|/\*)', re.S)
 
 
@@ -134,6 +166,8 @@ def check(ctx):
         tb = t.encode("utf-8")
         if rr.crash:
             bad = bad or (pc, "crash: " + rr.crash); continue
+        if exposed_backtick(t):
+            ctx.count("not_directive_free_after_all"); continue
         fault = lex_fault(t)
         if fault is not None:
             if rr.ok:
